@@ -55,6 +55,9 @@ func (p *planner) failover(node uint64, c02 bool) {
 	if p.r.IntN(10) == 0 {
 		op.Drop = p.faultNodes(1, node)
 	}
+	if p.r.IntN(8) == 0 { // one voter answers the frontier round, its identity-page reply is lost
+		op.PDrop = p.faultNodes(1, node)
+	}
 	p.add(opIn{K: "restart", Node: node})
 	p.add(op)
 	p.noteInstall(node, a)
@@ -133,7 +136,7 @@ func genC01(r *rand.Rand, tier string, in *input, c02 bool) {
 				continue
 			}
 			p.failover(ups[r.IntN(len(ups))], c02)
-		case x < 88: // bare-quorum pattern: ack on exactly Q, old leader down, a voter that missed it leads
+		case x < 85: // bare-quorum pattern: ack on exactly Q, old leader down, a voter that missed it leads
 			if maxDown == 0 {
 				p.add(p.commitOp(p.leader, p.cur, p.newCmd()))
 				continue
@@ -163,11 +166,48 @@ func genC01(r *rand.Rand, tier string, in *input, c02 bool) {
 				p.add(p.commitOp(p.leader, p.cur, p.newCmd()))
 				p.add(p.commitOp(p.leader, p.cur, p.newCmd()))
 			}
-		case x < 93 && c02: // follower gap repair by exact replays
+		case x < 93: // per-round fault: a commit acknowledged on exactly Q voters (the trailing writes are still in
+			// flight), EVERYBODY stays up and answers the frontier round of the next leader's Install on another holder,
+			// but the identity-page reply of the old leader is lost
+			if maxDown == 0 || in.Voters < 3 {
+				continue
+			}
+			for v := uint64(1); v <= uint64(in.Voters); v++ {
+				p.setDown(v, false)
+			}
+			cop := p.commitOp(p.leader, p.cur, p.newCmd())
+			cop.Drop = p.faultNodes(maxDown, p.leader)
+			p.add(cop)
+			old := p.leader
+			var holders []uint64
+			for v := uint64(1); v <= uint64(in.Voters); v++ {
+				dropped := false
+				for _, d := range cop.Drop {
+					dropped = dropped || d == v
+				}
+				if v != old && !dropped {
+					holders = append(holders, v)
+				}
+			}
+			if len(holders) == 0 {
+				continue
+			}
+			next := holders[r.IntN(len(holders))]
+			a := p.nextTerm()
+			iop := p.installOp(next, a)
+			iop.PDrop = []uint64{old}
+			if r.IntN(3) == 0 && len(holders) > 1 {
+				iop.PDrop = append(iop.PDrop, holders[(r.IntN(len(holders)))])
+			}
+			p.add(opIn{K: "restart", Node: next})
+			p.add(iop)
+			p.noteInstall(next, a)
+			p.add(p.installOp(next, a)) // the retry without the fault
+		case x < 96 && c02: // follower gap repair by exact replays
 			f := p.otherNode(p.leader)
 			from := uint64(1 + r.IntN(4))
 			p.add(opIn{K: "repair", Node: p.leader, Peer: f, From: from, Thru: from + uint64(r.IntN(4))})
-		case x < 97 && c02: // standalone checkpoint of a watermark the leader has acknowledged
+		case x < 98 && c02: // standalone checkpoint of a watermark the leader has acknowledged
 			p.add(opIn{K: "checkpoint", Node: p.leader, HW: uint64(1 + r.IntN(5))})
 		default:
 			v := p.node()
